@@ -874,6 +874,8 @@ def pHStep (tok : String) : P HStep := do
   | ["S", c, a, n] => do pure (.lshift c a (← pNat n))
   | ["H", c, a, n] => do pure (.rshiftKeep c a (← pNat n))
   | ["X", v, a, i] => do pure (.index v a (← pNat i))
+  | ["T", v, a, st, sp, n] => do pure (.slice v a (← pNat st) (← pInt sp) (← pNat n))
+  | ["Y", v, a, j] => do pure (.column v a (← pNat j))
   | ["W", a, vs] => do pure (.write a (← pList pRat vs))
   | ["I", a, i, v] => do pure (.windex a (← pNat i) (← pRat v))
   | ["G", a, r, o] => do pure (.setCfg a ⟨← pRounding r, ← pOverflow o⟩)
@@ -893,7 +895,7 @@ def sharing (h : Heap) : String :=
       let x := p.1; let y := q.1
       let c := x.cfg == y.cfg
       let s := x.st == y.st
-      let b := x.buf == y.buf && decide (x.off < y.off + y.len ∧ y.off < x.off + x.len)
+      let b := x.buf == y.buf && (List.range x.len).any (fun k => (List.range y.len).any (fun l => x.pos k == y.pos l))
       if c || s || b then
         some s!"{x.name}-{y.name}:{if c then "c" else ""}{if s then "s" else ""}{if b then "b" else ""}"
       else none))
